@@ -250,7 +250,8 @@ class World:
                  f"{fh(srv.file_system.get_file('downloads', 'database.db'))},[{conns}],"
                  f"ftpc={fcs},port={1 if port else 0},dl={1 if srv.file_system.get_folder('downloads') is not None else 0}"]
         ftps = bk.software_manager.software["ftp-server"]
-        parts.append(f"bk:{bk.operating_state.name},{ftps.operating_state.name},{fh(bk.file_system.get_file(str(db.uuid), 'database.db'))}")
+        orph = sum(1 for fo in bk.file_system.folders.values() if fo.name != str(db.uuid) and fo.get_file("database.db") is not None)
+        parts.append(f"bk:{bk.operating_state.name},{ftps.operating_state.name},{fh(bk.file_system.get_file(str(db.uuid), 'database.db'))},orph={orph}")
         for i, c in enumerate(self.clients):
             dc = self.dc(i)
             bot = c.software_manager.software.get("data-manipulation-bot")
